@@ -99,6 +99,15 @@ VALUES = {
   "padding": sp.PaddingType(),
   "pos_pct": sp.PositionType(h_offset=L(1, U.pct), v_offset=L(1, U.pct)),
   "pos_em": sp.PositionType(h_offset=L(1, U.em), v_offset=L(1, U.em)),
+  # em on one axis only (documented-invalid as well: the other axis uses a listed unit)
+  "pos_em_rh": sp.PositionType(h_offset=L(1, U.em), v_offset=L(1, U.rh)),
+  "pos_rw_em": sp.PositionType(h_offset=L(1, U.rw), v_offset=L(1, U.em)),
+  "origin_em_rh": sp.CoordinateType(x=L(1, U.em), y=L(1, U.rh)),
+  "origin_rw_em": sp.CoordinateType(x=L(1, U.rw), y=L(1, U.em)),
+  "origin_em_pct": sp.CoordinateType(x=L(1, U.em), y=L(1, U.pct)),
+  "extent_em_rh": sp.ExtentType(height=L(1, U.rh), width=L(1, U.em)),
+  "extent_rw_em": sp.ExtentType(height=L(1, U.em), width=L(1, U.rw)),
+  "extent_px_em": sp.ExtentType(height=L(1, U.em), width=L(1, U.px)),
   "ra_space": sp.RubyAlignType.spaceAround,
   "ap_before": sp.AnnotationPositionType.before,
   "rr": sp.RubyReserveType(),
@@ -317,11 +326,29 @@ class Universe:
         steps += 1
         if steps > n + 1:
           raise core.Violation("inv.cycle", kinds[i] + " " + "parent chain of e%d does not end" % i)
-    # (safe now) derived getters agree
+    # (safe now) derived getters agree with the child lists
+    def walk(j, acc):
+      acc.append(j)
+      for x in ch[j]:
+        walk(self.idx[id(x)], acc)
+      return acc
     for i, e in enumerate(pool):
       r = e.root()
       if r.parent() is not None:
         raise core.Violation("inv.root-not-root", kinds[i] + " " + "e%d" % i)
+      if [self.idx.get(id(x)) for x in e] != [self.idx[id(x)] for x in ch[i]]:
+        raise core.Violation("inv.iter-mismatch", kinds[i] + " e%d: iteration differs from the sibling walk" % i)
+      for k_, x in enumerate(ch[i]):
+        if e[k_] is not x:
+          raise core.Violation("inv.getitem-mismatch", kinds[i] + " e%d[%d]" % (i, k_))
+      if e.parent() is None or not ch[i]:
+        got = []
+        for x in e.dfs_iterator():
+          got.append(self.idx.get(id(x)))
+          if len(got) > n + 1:
+            break
+        if got != walk(i, []):
+          raise core.Violation("inv.dfs-mismatch", kinds[i] + " e%d: dfs_iterator gives %s, child lists give %s" % (i, got, walk(i, [])))
     # documents
     for di, d in enumerate(self.docs):
       b = d.get_body()
@@ -598,6 +625,8 @@ def gen_op(rng, u, knobs, stats):
       pn = rng.choice(PROP_NAMES)
       if illegal:
         vn = rng.choice(VALUE_NAMES)
+        if pn in ("Extent", "Origin", "Position") and rng.random() < 0.6:
+          vn = rng.choice([v for v in VALUE_NAMES if v.startswith({"Extent": "extent_", "Origin": "origin_", "Position": "pos_"}[pn])])
         if pn == "FontFamily" and rng.random() < 0.6:
           vn = rng.choice(["ff_bad_item", "ff_none_item", "ff_int_only", "ff_nested", "ff_list"])
           stats.count("probe.font_family_bad_item")
@@ -797,6 +826,7 @@ def describe():
              "(kind, document, parent, region reference, style count per pool element + region registries + bodies), "
              "sampled every 4th step, hashed; states with no parent link at all are included but the initial state is not "
              "sampled (first sample after 4 calls)."),
+    "fault_note": 'the fault dimension is the rejected call: 15-70 % of the calls of a history are constructed to be illegal (wrong child kind, own ancestor, foreign document, unregistered region, invalid value, unknown property); counted per op kind when the call actually raised',
     "nontrivial_measure": "state",
     "components": {"real": ["ttconv/model.py (all of it)", "ttconv/style_properties.py"],
                    "stub": [], "simulated": ["API caller issuing legal and illegal calls (seeded)"],
